@@ -15,6 +15,7 @@ MODULES = [
     "contracts.c_init",
     "contracts.c_proxy",
     "contracts.c_misc",
+    "contracts.c_apply",
 ]
 EXPECTED_MIN_OBLIGATIONS = {}
 PROPERTY_ASSUMPTIONS = {}
